@@ -148,6 +148,9 @@ LEVELS = {
     "C04": ("proof",
             "Proof: the structural postcondition of tx.miter (node set, disjointness from add()'s existence checks, copies with inputs turned into buffers, ties, xor per endpoint, or/buf output, inputs = tied startpoints, outputs = {sat}, arguments untouched, fresh result) is discharged on the real body for self/pair and default/explicit startpoint-endpoint variants, and the encoding lemma (sat <=> some compared endpoint differs; ties; untied copy inputs free) is discharged over that structure. solve(miter,{sat:1}) then follows from the C01 contract. Bounded stand-in as cross-check.",
             "contracts used, each verified by the check of its home property: Circuit.add, connect (C07), startpoints, endpoints (C12), add_subcircuit for the call shape miter uses (C06: body == contract); assumed: networkx contracts; M1, M5 (graph-isomorphism invariance of consistency, not Lean-checked)"),
+    "C07": ("proof",
+            "Proof by induction over call sequences. Invariant Inv = `wired` exactly as the property states it (graph invariant, every node typed with a supported type, the four wiring clauses, every recorded instance has its pins with the right pin types unless the pin node is in R) plus one auxiliary clause (two recorded instances share a pin node only if it is in R), where the ghost set R = pin nodes the caller removed so far. pyvc discharges, on VCs generated from the current source: (base) the empty circuit satisfies Inv; (step) for each of add (default flags, uid=True; fan-in / fan-out none, str, list, set), connect and disconnect (all 9 combinations of str / list / set), remove, set_output (str, list, set incl. absent nodes), add_blackbox (no connections, dict of str, dict of lists), add_subcircuit (no connections, one connection, dict of str, dict of lists, strip_io True / False; the child satisfies Inv for its own R) and fill_blackbox: Inv before implies Inv after on EVERY normal and exceptional exit, a rejected call leaves the edge set (for the blackbox operations also the registry) unchanged and raises ValueError or KeyError; add(uid=True) leaves every existing node as it was (body == contract). M8 (Lean-checked) turns base + step into the statement about all histories. The bounded stand-in (operation sequences monitored on the real object) runs as cross-check and counterexample finder.",
+            "not covered by the proof: dicts that mix str and list values, other iterables as arguments; assumed: networkx / container contracts (pyvc/models.py), the read-only queries' contracts (verified by C12's check), body == contract of add_subcircuit / add_blackbox for 0 / 1 connections (C06's check; the variants with a connection dict are proved directly on the bodies here); termination not proved; circuits passed as children were themselves built through this API (they satisfy Inv)"),
     "C19": ("proof",
             "Proof of the frame condition by an effect / may-alias analysis over the real ASTs (pyvc/frame.py): for each of the 64 public functions of tx, props, sat, the io writers, utils.lint/visualize and the read-only Circuit methods, every potentially mutating operation (Circuit mutators, networkx graph mutators, dict/attribute stores, in-place relabel) is shown to be applied only to objects allocated in that activation, on all branches and exceptional edges, and every returned circuit (also inside returned containers) is shown not to share its graph, node-attribute dicts or registry with an argument. Circuit.copy additionally has its contract (fresh graph and registry, equal views) proved on its body. Independence under later edits is exercised by the bounded edit battery.",
             "assumed: effect summaries of networkx / dict operations and of the library's own mutators (pyvc/frame.py: copy() and relabel_nodes(copy=True) return fresh objects, subgraph() is a view sharing attribute dicts, BlackBox objects are immutable and shared by design); assume-guarantee between library functions (each callee's fresh-result summary is the obligation of its own task); values are abstracted, so a flagged site is never a counterexample: on unchanged source it is 'undecided', on changed source it is reported as a failed obligation (no-failing-input-found)"),
@@ -161,13 +164,12 @@ CHECKS["C05"]["proof"] = True
 PROVED_PART = {
     "C05": "proved part (tx.limit_fanout, tx.limit_fanin on their bodies, k symbolic): a returning call had k >= 2, only ValueError/KeyError raised, argument untouched, result new, original nodes keep type and output mark, added nodes are non-output gates, hence same primary inputs and outputs. Bound and preserved functions: bounded only",
     "C06": "proved part: Circuit.add_subcircuit body == its splice contract for 0 / 1 connections (symbolic and literal instance names, strip_io True/False), Circuit.add_blackbox (no connections) body == contract, Circuit.fill_blackbox: splice postconditions (node set, copied types, edges, registry) on the body. The functional-substitution statement, strip_blackboxes and >= 2 connections: bounded only",
-    "C07": "proved part: `wired` (for an arbitrary set of pins the caller removed earlier) is preserved on every normal and exceptional exit by connect, disconnect, remove, set_output (str, arbitrary lists), add (default / uid=True, 9 fan-in/fan-out shapes), add_blackbox and add_subcircuit (no connection, one connection, arbitrary dict of str connections), fill_blackbox; rejected calls add no edge and raise ValueError/KeyError; body == contract for every construction method. Not proved: list-valued connection values, disjointness of the pins of distinct instances (assumed by the fill_blackbox lemma), and the induction over call sequences",
     "C12": "proved part (body == contract): type, is_output, nodes, edges, io, inputs, outputs, fanin, fanout, startpoints / endpoints (with and without argument), transitive_fanin / transitive_fanout and is_cyclic relative to the assumed contracts of networkx.ancestors / descendants / is_directed_acyclic_graph. Depth functions, topo_sort, reconvergent_fanout_nodes, kcuts: bounded only",
     "C13": "proved part: utils.clog2 (2^(r-1) < n <= 2^r; ValueError iff n < 1); logic.half_adder and logic.full_adder on their bodies: for every valuation consistent with the returned circuit the sum and carry equations hold, io lists, C07 wiring clauses (full_adder rests on the add_subcircuit contract with two connections, assumed for >= 2). adder, mux, popcount, bit helpers: bounded only",
 }
 for _p, _t in PROVED_PART.items():
     CHECKS[_p]["level_note"] = CHECKS[_p]["level_note"] + " | " + _t
-for _p in ("C05", "C06", "C07", "C12", "C13"):
+for _p in ("C05", "C06", "C12", "C13"):
     CHECKS[_p]["level_text"] = ("Bounded stand-in of the contract, PLUS proved obligations for part of the functions the property depends on "
                                 "(reported in evidence.coverage.obligations/functions_under_contract; not claimed as a proof of the whole property): ") + CHECKS[_p]["level_text"]
 
